@@ -1,5 +1,5 @@
 (* C03: along the chain of ancestors (element first, region last) the style maps M computes agree with the
-   by-property specification, for the 25 plain properties. *)
+   by-property specification, for the 21 plain properties (plain_prop). *)
 From TT Require Import Model.Doc Gen.StyleTables Model.Isd Spec.IsdSpec Spec.StyleSpec.
 From TT Require Import Proofs.Common.StyleFrame Proofs.C01.Display Proofs.C13.Shape Proofs.C13.Styles Proofs.C03.Values Proofs.C03.Cascade.
 
